@@ -125,7 +125,7 @@ PROPS = {
               "thorough": [["store-C07", "--scenarios", "40", "--ops", "600"]]},
         trusted=STORE_TRUST + ["crash model of the property: a store through the shared mapping persists once issued; granularity = one storage call"],
         statement="recovery from every crash image re-establishes the full invariant; affected document old-or-new",
-        partial="proved: recovery succeeds on every segment image with any zero tail; a zero tail becomes a FREE span; of two active spans of one id exactly the older is released. The lift 'every crash image of every operation is such a segment image and the recovered state satisfies Inv' is tied by byte-exact correspondence at every storage-step boundary (plus continuation and second reopen), not yet a theorem",
+        partial="proved (unbounded): for every operation sequence from a state satisfying the invariants and every crash image of the next WriteRecord (after grow / writeAt / markFreed; fresh id or overwrite; reuse or growth) or RemoveRecord, a writable open succeeds, the recovered state satisfies the representation invariant (well-formed chain, no id active twice, exact index and free map) and stands for the store before or after the operation (C07.crash_at_any_step_of_any_write, crash_during_write, crash_during_remove, recovery_keeps_newer, new_file_invariants). Hypotheses: the format's 32-bit limits and no wrap of the 32-bit sequence counter. Crash granularity = one storage call (the property's crash model); a torn write inside one writeAt is outside it. The Collection layer on top is tied by correspondence at every storage-step boundary (plus continuation and second reopen)",
     ),
     "C09": dict(
         modules=["Syzgy.Props.C09"], ties=["Storage"],
